@@ -85,6 +85,23 @@ from obl.dbimpl_compact import compaction_obls
 _c = compaction_obls("c")
 OBLIGATIONS += [o for o in _c if o.tier == "quick"][3:7] + [o for o in _c if o.tier != "quick"][2:5]
 
+# b: compaction input selection keeps the level structure well-formed: level-0 inputs are the transitive closure of
+# overlapping files, boundary files (one user key straddling files) follow their newer siblings, every level+1 file
+# overlapping the inputs' hull is taken (real ldb_version_get_overlapping_inputs / add_boundary_inputs /
+# ldb_versions_setup_other_inputs / pick_compaction / compact_range); d: flush placement (pick_level_for_memtable_output)
+from obl.vset_more import boundary_obls, overlap_obls
+_b = boundary_obls("b")
+_keep = {"add-boundary-C1-L1x2", "add-boundary-C6-L6x3", "pick-size-C1-L1x2-L2x1", "pick-size-C5-L5x2-L6x1", "pick-seek-C1-L1x3-L2x1-S1", "pick-seek-C1-L1x1-L2x2-S3", "compact-range-C0-L0x1-L1x1"}
+for _o in _b:
+    if _o.tier == "quick" and _o.name.split(".", 1)[1] not in _keep:
+        _o.tier = "thorough"
+_ov = overlap_obls("d")
+_keepo = {"overlapping-inputs-L0-N2", "overlapping-inputs-L0-N3", "overlapping-inputs-L2-N2", "overlapping-inputs-L6-N2", "pick-level-L0x2-L1x1-L3x1", "pick-level-L1x1-L2x1-L3x2"}
+for _o in _ov:
+    if _o.tier == "quick" and _o.name.split(".", 1)[1] not in _keepo:
+        _o.tier = "thorough"
+OBLIGATIONS += _b + _ov
+
 META = {
     "level": "model_checking",
     "level_text": "Bounded model checking (CBMC) of lcdb's own version_set.c builder (builder_apply, builder_save_to, "
